@@ -119,3 +119,75 @@ def eng_key(e):
 
 def obs_hash(e):
     return h(eng_key(e), 10)
+
+
+# ---------- full cases: fresh context, log channel ----------------------------------------
+def run_cases(epool, npool, cases, opts=None, batch=40, timeout=120):
+    """cases: [{src, pre?}] -> list of (eng_record, node_record)."""
+    import threading
+    out = {}
+    eo = dict(opts or {})
+
+    def eng():
+        out["e"] = epool.map({"mod": "vf.engine", "fn": "w_run", "opts": eo},
+                             [{"src": c["src"], "opts": c.get("opts")} for c in cases],
+                             batch=batch, timeout=timeout, single_timeout=30)
+
+    def ref():
+        out["n"] = npool.map({}, [{"src": c["src"], "sloppy": c.get("sloppy", False)} for c in cases],
+                             batch=batch, timeout=timeout) if npool else [None] * len(cases)
+    t1, t2 = threading.Thread(target=eng), threading.Thread(target=ref)
+    t1.start(); t2.start(); t1.join(); t2.join()
+    return list(zip(out["e"], out["n"]))
+
+
+def strip_stamp(log):
+    return [[x for x in e if not (isinstance(x, list) and x and x[0] == "tick")] for e in log]
+
+
+def full_key(e):
+    """Normalised engine observation of a full case (for comparison and hashing)."""
+    if e is None:
+        return ["none"]
+    if "_fail" in e:
+        return ["fail", e["_fail"]]
+    if "_exc" in e:
+        return ["harness", e["_exc"]]
+    k = {"log": strip_stamp(e.get("log", []))}
+    if e["out"] == "ok":
+        k["ret"] = e.get("ret")
+    elif e["out"] == "abort":
+        k["abort"] = e.get("abort")
+    else:
+        d = e.get("err", {})
+        if d.get("kind") == "host":
+            k["err"] = ["host", d.get("cls"), d.get("site")]
+        else:
+            k["err"] = ["js", d.get("cls"), d.get("name")]
+    return k
+
+
+def cmp_full(e, n, judge_ret=True):
+    """Compare engine record with node record. Returns None if they agree, else a reason string."""
+    if n is None:
+        return None
+    if "oracle_error" in n:
+        return None
+    ek = full_key(e)
+    if not isinstance(ek, dict):
+        return "engine:" + str(ek)
+    if ek["log"] != n["log"]:
+        return "log"
+    if n["err"] is None:
+        if "ret" not in ek:
+            return "engine-failed:" + str(ek.get("err") or ek.get("abort"))
+        if judge_ret and ek["ret"] != n["ret"]:
+            return "completion-value"
+        return None
+    if n["err"].get("name") == "ORACLE_TIMEOUT":
+        return None
+    if "ret" in ek:
+        return "engine-returned-but-reference-threw:" + str(n["err"].get("name"))
+    if ek.get("err", ["?"])[0] != "js":
+        return "engine-host-error:" + str(ek.get("err") or ek.get("abort"))
+    return None
